@@ -93,6 +93,7 @@ impl SubRule {
         let mut cur_index = SegPos::new(0, 0);
         // TODO(girv): `$ > *` or any broad deletion rule without context/exception should  give a warning to the user
         loop {
+            #[cfg(feature = "verif")] crate::verif::tick(32);
             self.alphas.borrow_mut().clear();
             self.variables.borrow_mut().clear();
             let (res, mut next_index) = self.input_match_at(&word, cur_index)?;
@@ -107,6 +108,7 @@ impl SubRule {
                         // So that long vowels work
                         let mut seg_len = word.seg_length_at(sp);
                         while seg_len > 1 {
+                            #[cfg(feature = "verif")] crate::verif::tick(33);
                             sp.increment(&word);
                             seg_len -= 1;
                         }
@@ -159,6 +161,7 @@ impl SubRule {
         };
         let mut si = 0;
         while si < states.len() {
+            #[cfg(feature = "verif")] crate::verif::tick(34);
             if !self.context_match(states, &mut si, word_rev, &mut start_pos, false, ins_match_before)? {
                 is_match = false;
                 if is_context { break; }
@@ -181,6 +184,7 @@ impl SubRule {
         };
         let mut si = 0;
         while si < states.len() {
+            #[cfg(feature = "verif")] crate::verif::tick(35);
             if !self.context_match(states, &mut si, word, &mut start_pos, true, ins_match_before)? {
                 is_match = false;
                 if is_context { break; }
@@ -203,6 +207,7 @@ impl SubRule {
         let mut is_expt_match = false;
 
         for (bef_cont_states, aft_cont_states) in contexts {
+            #[cfg(feature = "verif")] crate::verif::tick(36);
             let mut bef_cont_states = bef_cont_states.clone();
             bef_cont_states.reverse();
             if (bef_cont_states.is_empty() || self.match_before_env(&bef_cont_states, &word_rev, &start_pos.reversed(word), false, true)?) 
@@ -212,6 +217,7 @@ impl SubRule {
             }
         }
         for (bef_expt_states, aft_expt_states) in exceptions {
+            #[cfg(feature = "verif")] crate::verif::tick(37);
             let mut bef_expt_states = bef_expt_states.clone();
             bef_expt_states.reverse();
             if (bef_expt_states.is_empty() || self.match_before_env(&bef_expt_states, &word_rev, &start_pos.reversed(word), false, false)?) 
@@ -284,6 +290,7 @@ impl SubRule {
         let cur_syll_index = pos.syll_index;
 
         for (mut i, item) in items.iter().enumerate() {
+            #[cfg(feature = "verif")] crate::verif::tick(38);
             if pos.syll_index != cur_syll_index {
                 return Ok(false)
             }
@@ -331,6 +338,7 @@ impl SubRule {
         pos.increment(word);
 
         while pos.syll_index == syll_index {
+            #[cfg(feature = "verif")] crate::verif::tick(39);
             let back_pos = *pos;
             let back_index = *index;
             let back_alphas = self.alphas.borrow().clone();
@@ -338,6 +346,7 @@ impl SubRule {
             
             let mut m = true;
             while *index < items.len() {
+                #[cfg(feature = "verif")] crate::verif::tick(40);
                 if pos.syll_index != syll_index {
                     m = false;
                     break;
@@ -387,6 +396,7 @@ impl SubRule {
         pos.increment(word);
 
         while word.in_bounds(*pos) {
+            #[cfg(feature = "verif")] crate::verif::tick(41);
             let back_pos = *pos;
             let back_state = *state_index;
             let back_alphas = self.alphas.borrow().clone();
@@ -394,6 +404,7 @@ impl SubRule {
 
             let mut m = true;
             while *state_index < states.len() {
+                #[cfg(feature = "verif")] crate::verif::tick(42);
                 if !self.context_match(states, state_index, word, pos, forwards, false)? {
                     m = false;
                     break;
@@ -416,6 +427,7 @@ impl SubRule {
     fn match_opt_states(&self, opt_states: &[Item], word: &Word, pos: &mut SegPos, forwards: bool) -> Result<bool, RuleRuntimeError> {
         let mut si = 0;
         while si < opt_states.len() {
+            #[cfg(feature = "verif")] crate::verif::tick(43);
             if !self.context_match(opt_states, &mut si, word, pos, forwards, false)? {
                 return Ok(false)
             }
@@ -433,6 +445,7 @@ impl SubRule {
         
         let mut index = 0;
         while index < match_min {
+            #[cfg(feature = "verif")] crate::verif::tick(44);
             if !self.match_opt_states(opt_states, word, pos, forwards)? {
                 *pos = back_pos;
                 *self.alphas.borrow_mut() = back_alphas;
@@ -450,6 +463,7 @@ impl SubRule {
 
         let mut m = true;
         while *state_index < states.len() {
+            #[cfg(feature = "verif")] crate::verif::tick(45);
             if !self.context_match(states, state_index, word, pos, forwards, false)? {
                 m = false;
                 break;
@@ -467,10 +481,12 @@ impl SubRule {
         
         let max = match_max.unwrap_or(usize::MAX);
         while index < max {
+            #[cfg(feature = "verif")] crate::verif::tick(46);
             *state_index = back_state;
             if self.match_opt_states(opt_states, word, pos, forwards)? {
                 let mut m = true;
                 while *state_index < states.len() {
+                    #[cfg(feature = "verif")] crate::verif::tick(47);
                     if !self.context_match(states, state_index, word, pos, forwards, false)? {
                         m = false;
                         break;
@@ -498,6 +514,7 @@ impl SubRule {
         let back_varlbs = self.variables.borrow().clone();
         
         for s in set {
+            #[cfg(feature = "verif")] crate::verif::tick(48);
             let res = match &s.kind {
                 ParseElement::Variable(vt, mods) => self.context_match_var(vt, mods, word, pos, forwards, s.position),
                 ParseElement::Ipa(seg, mods) => if self.context_match_ipa(seg, mods, word, *pos, s.position)? {
@@ -611,6 +628,7 @@ impl SubRule {
             }
             let mut seg_length = word.seg_length_at(*pos);            
             while seg_length >= 1 {
+                #[cfg(feature = "verif")] crate::verif::tick(49);
                 pos.increment(word);
                 seg_length -= 1;
             }
@@ -625,6 +643,7 @@ impl SubRule {
             RuleType::Metathesis => {
                 let mut res_word = word.clone();
                 for z in 0..(input.len() / 2) {
+                    #[cfg(feature = "verif")] crate::verif::tick(50);
                     match (input[z], input[input.len()-1-z]) {
                         (MatchElement::Segment(li, _), MatchElement::Segment(ri, _)) => {
                             // FIXME: If we swap syllables or boundaries then do this, these SegPos may not be correct
@@ -689,6 +708,7 @@ impl SubRule {
                 let mut pos = SegPos::new(0, 0);
                 let mut res_word = word.clone();
                 for z in input.into_iter().rev() {
+                    #[cfg(feature = "verif")] crate::verif::tick(51);
                     match z {
                         MatchElement::Segment(i, _) => {
                             pos = i;
@@ -777,6 +797,7 @@ impl SubRule {
 
                 let mut pos = SegPos::new(0, 0);
                 while res_word.in_bounds(pos) {
+                    #[cfg(feature = "verif")] crate::verif::tick(52);
                     self.alphas.borrow_mut().clear();
                     self.variables.borrow_mut().clear();
                     match self.insertion_match(&res_word, pos)? {
@@ -884,12 +905,14 @@ impl SubRule {
         
         // FIXME: This is scuffed
         'outer: while word.in_bounds(start_pos) {
+            #[cfg(feature = "verif")] crate::verif::tick(53);
             match self.insertion_after(bef_states, word, start_pos)? {
                 Some(mut ins_pos) => {
                     let mut pos = ins_pos;
                     let mut state_index = 0;
                     start_pos = ins_pos;
                     while state_index < aft_states.len() {
+                        #[cfg(feature = "verif")] crate::verif::tick(54);
                         if !self.context_match(aft_states, &mut state_index, word, &mut pos, true, false)? {
                             match bef_states.last().unwrap().kind {
                                 ParseElement::WordBound => return Ok(None),
@@ -933,6 +956,7 @@ impl SubRule {
         }
 
         while word.in_bounds(cur_pos) {
+            #[cfg(feature = "verif")] crate::verif::tick(55);
             if self.context_match(states, &mut state_index, word, &mut cur_pos, true, false)? {
                 if state_index >= states.len() - 1 {
                     return Ok(Some(cur_pos))
@@ -976,6 +1000,7 @@ impl SubRule {
         let mut match_begin = None;
 
         while word.in_bounds(cur_pos) {
+            #[cfg(feature = "verif")] crate::verif::tick(56);
             let before_pos = cur_pos;
             if self.context_match(states, &mut state_index, word, &mut cur_pos, true, true)? {
                 if match_begin.is_none() {
@@ -1022,6 +1047,7 @@ impl SubRule {
         let mut res_word = word.clone();
         let mut pos = pos;
         for state in &self.output {
+            #[cfg(feature = "verif")] crate::verif::tick(57);
             match &state.kind {
                 ParseElement::Ipa(seg, mods) => {
                     if let Some(syll) = res_word.syllables.get_mut(pos.syll_index) { 
@@ -1056,6 +1082,7 @@ impl SubRule {
                     let first_syll = res_word.syllables.get_mut(pos.syll_index).unwrap();
 
                     while first_syll.segments.len() > pos.seg_index {
+                        #[cfg(feature = "verif")] crate::verif::tick(58);
                         second_syll.segments.push_front(first_syll.segments.pop_back().unwrap());
                     }
 
@@ -1086,6 +1113,7 @@ impl SubRule {
                     let syll = res_word.syllables.get_mut(pos.syll_index).expect("pos should not be out of bounds");
 
                     while syll.segments.len() > pos.seg_index {
+                        #[cfg(feature = "verif")] crate::verif::tick(59);
                         new_syll.segments.push_front(syll.segments.pop_back().unwrap());
                     }
                     res_word.syllables.insert(pos.syll_index+1, new_syll);
@@ -1114,6 +1142,7 @@ impl SubRule {
                     new_syll.tone = old_syll.tone;
 
                     while old_syll.segments.len() > pos.seg_index {
+                        #[cfg(feature = "verif")] crate::verif::tick(60);
                         new_syll.segments.push_front(old_syll.segments.pop_back().unwrap());
                     }
 
@@ -1167,6 +1196,7 @@ impl SubRule {
                                     let before_syll = res_word.syllables.get_mut(pos.syll_index).unwrap();
                                     let mut after_syll = Syllable::new();
                                     while before_syll.segments.len() > pos.seg_index {
+                                        #[cfg(feature = "verif")] crate::verif::tick(61);
                                         after_syll.segments.push_front(before_syll.segments.pop_back().unwrap());
                                     }
                                     res_word.syllables.insert(pos.syll_index+1, after_syll);
@@ -1235,6 +1265,7 @@ impl SubRule {
         syll.apply_syll_mods(&self.alphas, &mods, err_pos)?;
 
         for item in items {
+            #[cfg(feature = "verif")] crate::verif::tick(62);
             match &item.kind {
                 ParseElement::Ellipsis   => return Err(if is_inserting {RuleRuntimeError::InsertionEllipsis(item.position)} else {RuleRuntimeError::SubstitutionEllipsis(item.position)}),
                 ParseElement::Matrix(..) => return Err(if is_inserting {RuleRuntimeError::InsertionMatrix(item.position)}   else {RuleRuntimeError::SubstitutionMatrix(item.position)}),
@@ -1256,6 +1287,7 @@ impl SubRule {
                         // TODO: Ignore syll suprs?
                     }
                     for _ in 0..len {
+                        #[cfg(feature = "verif")] crate::verif::tick(63);
                         syll.segments.push_back(segment);
                     }
                 
@@ -1282,6 +1314,7 @@ impl SubRule {
                                     // TODO: Ignore syll suprs?
                                 }
                                 for _ in 0..len {
+                                    #[cfg(feature = "verif")] crate::verif::tick(64);
                                     syll.segments.push_back(segment);
                                 }
                             },
@@ -1309,6 +1342,7 @@ impl SubRule {
         
         let mut res_word = word.clone();
         for (state_index, (in_state, out_state)) in self.input.iter().zip(&self.output).enumerate() {
+            #[cfg(feature = "verif")] crate::verif::tick(65);
             match &out_state.kind {
                 ParseElement::Syllable(..) => return Err(RuleRuntimeError::SubstitutionSyll(out_state.position)),
                 ParseElement::Structure(items, stress, tone, var) => {
@@ -1362,6 +1396,7 @@ impl SubRule {
                             new_syll.tone = old_syll.tone;
 
                             while old_syll.segments.len() > sp.seg_index {
+                                #[cfg(feature = "verif")] crate::verif::tick(66);
                                 new_syll.segments.push_front(old_syll.segments.pop_back().unwrap());
                             }
 
@@ -1504,6 +1539,7 @@ impl SubRule {
                                 new_syll.tone = old_syll.tone;
 
                                 while old_syll.segments.len() > sp.seg_index {
+                                    #[cfg(feature = "verif")] crate::verif::tick(67);
                                     new_syll.segments.push_front(old_syll.segments.pop_back().unwrap());
                                 }
 
@@ -1622,6 +1658,7 @@ impl SubRule {
                                                         new_syll.tone = old_syll.tone;
 
                                                         while old_syll.segments.len() > sp.seg_index {
+                                                            #[cfg(feature = "verif")] crate::verif::tick(68);
                                                             new_syll.segments.push_front(old_syll.segments.pop_back().unwrap());
                                                         }
                                                         
@@ -1723,6 +1760,7 @@ impl SubRule {
         let mut pos = last_pos;
         if self.output.len() > self.input.len() {
             for z in self.output.iter().skip(self.input.len()) {
+                #[cfg(feature = "verif")] crate::verif::tick(69);
                 match &z.kind {
                     ParseElement::Ipa(seg, mods) => {
                         if let Some(syll) = res_word.syllables.get_mut(pos.syll_index) { 
@@ -1756,6 +1794,7 @@ impl SubRule {
                         let syll = res_word.syllables.get_mut(pos.syll_index).unwrap();
     
                         while syll.segments.len() > pos.seg_index {
+                            #[cfg(feature = "verif")] crate::verif::tick(70);
                             new_syll.segments.push_front(syll.segments.pop_back().unwrap());
                         }
                         res_word.syllables.insert(pos.syll_index+1, new_syll);
@@ -1786,6 +1825,7 @@ impl SubRule {
                         let syll = res_word.syllables.get_mut(pos.syll_index).expect("pos should not be out of bounds");
 
                         while syll.segments.len() > pos.seg_index {
+                            #[cfg(feature = "verif")] crate::verif::tick(71);
                             new_syll.segments.push_front(syll.segments.pop_back().unwrap());
                         }
                         res_word.syllables.insert(pos.syll_index+1, new_syll);
@@ -1817,6 +1857,7 @@ impl SubRule {
                         new_syll.tone = old_syll.tone;
     
                         while old_syll.segments.len() > pos.seg_index {
+                            #[cfg(feature = "verif")] crate::verif::tick(72);
                             new_syll.segments.push_front(old_syll.segments.pop_back().unwrap());
                         }
 
@@ -1879,6 +1920,7 @@ impl SubRule {
                                         let before_syll = res_word.syllables.get_mut(pos.syll_index).unwrap();
                                         let mut after_syll = Syllable::new();
                                         while before_syll.segments.len() > pos.seg_index {
+                                            #[cfg(feature = "verif")] crate::verif::tick(73);
                                             after_syll.segments.push_front(before_syll.segments.pop_back().unwrap());
                                         }
                                         res_word.syllables.insert(pos.syll_index+1, after_syll);
@@ -1907,6 +1949,7 @@ impl SubRule {
             // TODO(girv): factor this out
             let start_index = self.input.len() - self.output.len();
             for &z in input.iter().skip(start_index).rev() {
+                #[cfg(feature = "verif")] crate::verif::tick(74);
                 match z {
                     MatchElement::Segment(mut sp, _) => {
                         match total_len_change[sp.syll_index].cmp(&0) {
@@ -1990,6 +2033,7 @@ impl SubRule {
         let mut captures: Vec<_> = Vec::new();
 
         while word.in_bounds(cur_index) {
+            #[cfg(feature = "verif")] crate::verif::tick(75);
             if self.input_match_item(&mut captures, &mut cur_index, &mut state_index, word, &self.input)? {
                 // if we have a full match
                 if state_index > self.input.len() - 1 { 
@@ -2102,6 +2146,7 @@ impl SubRule {
         }
 
         for (mut i, item) in items.iter().enumerate() {
+            #[cfg(feature = "verif")] crate::verif::tick(76);
             if pos.syll_index != cur_syll_index {
                 return Ok(false)
             }
@@ -2162,6 +2207,7 @@ impl SubRule {
         pos.increment(word);
 
         while word.in_bounds(*pos) {
+            #[cfg(feature = "verif")] crate::verif::tick(77);
             let back_pos = *pos;
             let back_state = *state_index;
             let back_alphas = self.alphas.borrow().clone();
@@ -2169,6 +2215,7 @@ impl SubRule {
 
             let mut m = true;
             while *state_index < states.len() {
+                #[cfg(feature = "verif")] crate::verif::tick(78);
                 if !self.input_match_item(captures, pos, state_index, word, states)? {
                     m = false;
                     break;
@@ -2252,6 +2299,7 @@ impl SubRule {
                 // Find the mean of the middle values
                 let mut acc = 0;
                 for i in nums.iter().take(nums.len()-1).skip(1) {
+                    #[cfg(feature = "verif")] crate::verif::tick(79);
                     acc+=i;
                 }
                 acc / (nums.len()-2) as u8
@@ -2362,6 +2410,7 @@ impl SubRule {
         let back_varlbs = self.variables.borrow().clone();
 
         for (i,s) in set.iter().enumerate() {
+            #[cfg(feature = "verif")] crate::verif::tick(80);
             let res = match &s.kind {
                 ParseElement::Variable(vt, mods) => self.input_match_var(captures, state_index, vt, mods, word, pos, s.position),
                 ParseElement::Ipa(seg, mods) => if self.input_match_ipa(captures, seg, mods, word, pos, s.position)? {
@@ -2401,6 +2450,7 @@ impl SubRule {
                 // the way we implement `long` vowels means we need to do this
                 let mut seg_length = word.seg_length_at(*pos);            
                 while seg_length > 1 {
+                    #[cfg(feature = "verif")] crate::verif::tick(81);
                     pos.increment(word);
                     seg_length -= 1;
                 }
@@ -2408,6 +2458,7 @@ impl SubRule {
             } else {
                 let mut seg_length = word.seg_length_at(*pos);            
                 while seg_length > 1 {
+                    #[cfg(feature = "verif")] crate::verif::tick(82);
                     pos.increment(word);
                     seg_length -= 1;
                 }
@@ -2418,6 +2469,7 @@ impl SubRule {
             // the way we implement `long` vowels means we need to do this
             let mut seg_length = word.seg_length_at(*pos);            
             while seg_length > 1 {
+                #[cfg(feature = "verif")] crate::verif::tick(83);
                 pos.increment(word);
                 seg_length -= 1;
             }
@@ -2426,6 +2478,7 @@ impl SubRule {
             // the way we implement `long` vowels means we need to do this
             let mut seg_length = word.seg_length_at(*pos);            
             while seg_length > 1 {
+                #[cfg(feature = "verif")] crate::verif::tick(84);
                 pos.increment(word);
                 seg_length -= 1;
             }
@@ -2494,6 +2547,7 @@ impl SubRule {
             // the way we implement `long` vowels means we need to do this
             let mut seg_length = word.seg_length_at(*pos);            
             while seg_length > 1 {
+                #[cfg(feature = "verif")] crate::verif::tick(85);
                 pos.increment(word);
                 seg_length -= 1;
             }
@@ -2502,6 +2556,7 @@ impl SubRule {
             // the way we implement `long` vowels means we need to do this
             let mut seg_length = word.seg_length_at(*pos);            
             while seg_length > 1 {
+                #[cfg(feature = "verif")] crate::verif::tick(86);
                 pos.increment(word);
                 seg_length -= 1;
             }
@@ -2513,9 +2568,11 @@ impl SubRule {
         let mut joined_mods = seg.as_modifiers();
         
         for (i, n) in mods.nodes.iter().enumerate() {
+            #[cfg(feature = "verif")] crate::verif::tick(87);
             if n.is_some() { joined_mods.nodes[i] = *n }
         }
         for (i, f) in mods.feats.iter().enumerate() {
+            #[cfg(feature = "verif")] crate::verif::tick(88);
             if f.is_some() { joined_mods.feats[i] = *f }
         }
         joined_mods.suprs = mods.suprs;
@@ -2527,11 +2584,13 @@ impl SubRule {
         let seg = word.get_seg_at(*pos).expect("Segment Position should be within bounds");
         
         for (i, m) in mods.feats.iter().enumerate() {
+            #[cfg(feature = "verif")] crate::verif::tick(89);
             if !self.match_feat_mod(m, i, seg)? {
                 return Ok(false);
             }
         }
         for (i, m) in mods.nodes.iter().enumerate() {
+            #[cfg(feature = "verif")] crate::verif::tick(90);
             if !self.match_node_mod(m, i, seg, err_pos)? {
                 return Ok(false);
             }
